@@ -116,6 +116,17 @@ PROPS = {
         "lean_modules": ["Vipnode.Props.C11"],
         "streams": store_streams(150, 1500) + pool_streams(120, 1500, gen="pool-expiry", prefix="expiry"),
     },
+    "C14": {
+        "level_text": "An invariant of the pending-reply table (distinct slot ids; every live call has a slot marked as waited-on; buffered messages only for answered ids; live ids distinct) is proved for every honest execution - every schedule of any number of concurrent callers and handlers, replies in any order, cancellations at any point, any table limit (inv_step, inv_run). From it: live_slot_protected, serve_never_blocks, ids_unique, reply_routing (own reply, other calls untouched, also when the reply arrives before the caller waits), cancel_returns_ctx_error, late_reply_never_misdelivered, handled_exactly_once, callback_completes (a handler calling back waits only on its own slot). The real jsonrpc2.Remote is driven through a harness codec that is the scheduler (the harness plays peer and network) and through concurrent storms over a pipe pair with the production table limit.",
+        "level_note": "Theorems are about Model/Rpc.lean, whose steps are the atomic regions of remote.go (r.mu critical sections, channel operations, the atomic id counter); the peer is honest (answers only issued ids, each at most once). Runtime behaviour the model cannot exhibit: goroutine scheduling and Go channel semantics are abstracted as atomic steps (supported by -race storms in the thorough tier).",
+        "lean_modules": ["Vipnode.Props.C14"],
+        "streams": [
+            {"name": "rpc-sched", "component": "rpc", "cases": {"quick": 120, "thorough": 2000}},
+            {"name": "rpc-storm", "component": "rpc", "gen": "rpc-storm", "cases": {"quick": 5, "thorough": 40}, "no_shrink": True, "race": True},
+        ],
+        "race": True,
+        "monitor": monitors.c14_rpc,
+    },
     "C16": {
         "level_text": "exposed_exactly (a server exposes exactly prefix+lowerFirst(method) for the receiver's exported methods, restricted to the allow-list), unknown_not_found, bad_params_not_run, runs_only_if_well_typed, too_many/too_few/wrong_type_invalid are Lean theorems about the registry and positional-argument model; production_surface re-proves by `decide`, on every run, that the names the *built pool binary* answers (probed over HTTP with every candidate name derived by reflection from the objects behind its services) are exactly the documented API. The model is compared with jsonrpc2.Server on instrumented receivers (invocation counters) and with the running binary over HTTP and WebSocket.",
         "level_note": "Theorems are about Model/Server.lean; encoding/json's type compatibility is the table `compat` (JSON null decodes into any type). Tie: differential on instrumented receivers with invocation counters; the running binary over HTTP/WebSocket with malformed parameter lists and candidate names. Trusted: reflect, encoding/json.",
